@@ -671,13 +671,13 @@ def malformed(ctx, corr):
         corr.nontrivial.add('div0:' + src)
         if c == 'minus-one':
             if rc < 0 or rc > 1:
-                corr.violations.append({'what': 'constant expression MIN / -1 kills the front end', 'input': src, 'expected': 'exit 0 or 1', 'got': f'rc={rc} {e[-200:]}'})
+                corr.violations.append({'what': 'constant expression MIN / -1 kills the front end', 'input': src, 'replay_kind': 'div0', 'context': c, 'expected': 'exit 0 or 1', 'got': f'rc={rc} {e[-200:]}'})
                 return False
             continue
         located = re.search(re.escape(os.path.basename(path)) + r':3: ', e) is not None
         if rc != 1 or not located or 'division by zero' not in e:
             corr.violations.append({'what': 'division by zero in a constant expression is not answered with a located diagnostic and exit status 1',
-                                    'input': src, 'context': c, 'expected': 'file:3: ... division by zero ..., exit 1',
+                                    'input': src, 'context': c, 'replay_kind': 'div0', 'expected': 'file:3: ... division by zero ..., exit 1',
                                     'got': f'rc={rc} stderr={e[-300:]!r}'})
             return False
     return True
@@ -815,7 +815,7 @@ def floating(ctx, corr):
             corr.nontrivial.add('f:' + s + ':' + tag)
             if cc_ != cr:
                 corr.violations.append({'what': f'floating/arithmetic constant expression: folded value differs from run-time evaluation (as {tag})',
-                                        'input': s, 'expected': f'run time {cr} (gcc {gc})', 'got': cc_})
+                                        'input': s, 'replay_kind': 'float', 'expected': f'run time {cr} (gcc {gc})', 'got': cc_})
                 return False
             if cc_ != gc:
                 corr.count('float-const-equals-runtime-but-not-gcc')     # a C02/C11 matter (conversion or literal), not constant folding
@@ -875,7 +875,7 @@ def unevaluated_cond(ctx, corr):
         if rc != 0:
             corr.violations.append({'what': 'a valid integer constant expression is rejected as an array bound: is_const_expr evaluates a ?: condition '
                                             'inside an unevaluated && / || operand', 'input': src, 'expected': 'accepted (gcc accepts)',
-                                    'got': f'rc={rc} {e[-200:]}', 'known_id': 'C07-constness-unevaluated-cond'})
+                                    'got': f'rc={rc} {e[-200:]}', 'known_id': 'C07-constness-unevaluated-cond', 'replay_kind': 'uneval'})
             if 'C07-constness-unevaluated-cond' not in corr.known_hits:
                 corr.known_hits.append('C07-constness-unevaluated-cond')
             return
@@ -979,17 +979,56 @@ def impl_only(ctx, cases, tag):
 
 def replay(ctx, corr, path):
     payload = json.load(open(path))
-    if 'replay_sexpr' not in payload:
-        corr.extra['replay'] = 'replay file carries no expression'
-        print('replay: nothing to replay')
-        return
-    e = from_json(json.loads(payload['replay_sexpr']))
-    cases = [(0, e, contexts(e, ctx.rng))]
-    v = impl_only(ctx, cases, 'replay')
+    kind = payload.get('replay_kind')
     corr.evaluations = 1
-    print('replay:', (v['what'] + f" expected {v['expected']} got {v['got']}") if v else 'constant contexts now agree with the C11 value')
-    if v:
-        corr.violations.append(v)
+    if 'replay_sexpr' in payload:
+        e = from_json(json.loads(payload['replay_sexpr']))
+        cases = [(0, e, contexts(e, ctx.rng))]
+        v = impl_only(ctx, cases, 'replay')
+        print('replay:', (v['what'] + f" expected {v['expected']} got {v['got']}") if v else 'constant contexts now agree with the C11 value')
+        if v:
+            corr.violations.append(v)
+        return
+    if kind in ('div0', 'uneval'):
+        src = payload['input']
+        p = os.path.join(ctx.scratch, 'replay.c')
+        open(p, 'w').write(('\n\n' if kind == 'div0' else '') + src)
+        rc, o, e = sh([ctx.cc, '-cc1', '-cc1-input', p, '-cc1-output', '/dev/null', p], timeout=20)
+        if kind == 'uneval':
+            bad = rc != 0
+        elif payload.get('context') == 'minus-one':
+            bad = rc < 0 or rc > 1
+        else:
+            bad = rc != 1 or 'division by zero' not in e
+        print('replay:', f'rc={rc} {e.strip()[-160:]!r}', '-> still failing' if bad else '-> now as required')
+        if bad:
+            corr.violations.append(dict(payload, got=f'rc={rc} {e[-200:]}'))
+        return
+    if kind == 'float':
+        sub = Corr()
+        s = payload['input']
+        global FCORPUS, ICORPUS
+        saveF, saveI = FCORPUS, ICORPUS
+        FCORPUS, ICORPUS = [s], [s] if re.search(r'[=<>!&|?]', s) else []
+        try:
+            class _R:      # no random extras
+                def choice(self, x): return x[0]
+                def random(self): return 0.0
+            ctx2rng, ctx.rng = ctx.rng, ctx.rng
+            floating(ctx, sub)
+        finally:
+            FCORPUS, ICORPUS = saveF, saveI
+        print('replay:', sub.violations[0]['what'] if sub.violations else 'folded value now equals run-time value')
+        corr.violations += sub.violations[:1]
+        return
+    if str(payload.get('input', '')).endswith('.c'):
+        sub = Corr()
+        corpus(ctx, sub)
+        print('replay:', sub.violations[0]['what'] if sub.violations else 'corpus programs agree with gcc')
+        corr.violations += sub.violations[:1]
+        return
+    corr.extra['replay'] = 'replay file carries nothing replayable'
+    print('replay: nothing to replay')
 
 
 MANIFEST = {
